@@ -360,13 +360,29 @@ impl Im2Col<'_, i8> {
                             let src_elem =
                                 unsafe { *img_data.get_unchecked(offsets_array[idx] as usize) };
 
+                            // Elements in the image's padding region are
+                            // set to the zero point, so they contribute zero
+                            // to the output. Rows which pad the row count are
+                            // not part of the image and are zero.
                             if CAST_B_U8 {
                                 let src_elem = shift_cast_i8_u8(src_elem);
-                                let elem = if pad_mask_array[idx] { src_elem } else { 0 };
+                                let elem = if pad_mask_array[idx] {
+                                    src_elem
+                                } else if is_row_padding {
+                                    0
+                                } else {
+                                    shift_cast_i8_u8(zero_point)
+                                };
                                 col_sums[c_block][idx] += elem as i32;
                                 out_elem.write(elem as i8);
                             } else {
-                                let elem = if pad_mask_array[idx] { src_elem } else { 0 };
+                                let elem = if pad_mask_array[idx] {
+                                    src_elem
+                                } else if is_row_padding {
+                                    0
+                                } else {
+                                    zero_point
+                                };
                                 col_sums[c_block][idx] += elem as i32;
                                 out_elem.write(elem);
                             }
